@@ -2,7 +2,9 @@
 # tools/seedcheck.sh <Cxx> [extra check args]: confirm a seeded change (seeded/Cxx or /tmp/seed/Cxx/out)
 # on a fresh worktree of /repo HEAD and run the property's check on it.
 id="$1"; shift
-src=/verif/seeded/$id; [ -f $src/patch.diff ] || src=/tmp/seed/$id/out
+# SEED_SRC / SEED_DEST override where the change comes from / is kept (e.g. round 2: seeded/Cxx-r2)
+dest=${SEED_DEST:-/verif/seeded/$id}
+src=${SEED_SRC:-$dest}; [ -f $src/patch.diff ] || src=/tmp/seed/$id/out
 w=/var/tmp/seedrun/$id
 rm -rf $w; mkdir -p /var/tmp/seedrun
 git -C /repo worktree prune
@@ -13,18 +15,18 @@ echo "== demo on unchanged /repo"; /venv/bin/python $src/demo.py /repo >/dev/nul
 echo "== tests in changed worktree"; tl=$(cd $w && timeout 900 /venv/bin/python -m pytest -q -p no:cacheprovider 2>&1 | tail -1); echo "$tl"
 echo "== check on changed worktree"
 out=$(cd /verif && VERIF_REPO=$w timeout 1500 ./check $id "$@" 2>&1 | grep -v "^KNOWN-FINDING" | tail -6); echo "$out"
-mkdir -p /verif/seeded/$id
-[ "$src" = "/verif/seeded/$id" ] || cp $src/patch.diff $src/demo.py /verif/seeded/$id/
-/venv/bin/python - "$id" "$dc" "$du" "$tl" "$out" "$src" <<'PY'
+mkdir -p $dest
+[ "$src" = "$dest" ] || cp $src/patch.diff $src/demo.py $dest/
+/venv/bin/python - "$id" "$dc" "$du" "$tl" "$out" "$src" "$dest" <<'PY'
 import json,sys,os
-id,dc,du,tl,out,src=sys.argv[1:7]
+id,dc,du,tl,out,src,dest=sys.argv[1:8]
 mp=f'{src}/meta.json'
 m=json.load(open(mp)) if os.path.exists(mp) else {}
 m.update({'property':id,'demo_changed_exit':int(dc),'demo_unchanged_exit':int(du),'tests_with_change':tl,
  'confirmed_by':'tools/seedcheck.sh: patch applied to a fresh worktree of /repo HEAD; demo.py run there (must exit 1) and on unchanged /repo (must exit 0); pytest in the changed worktree; the check run with VERIF_REPO pointing at the changed worktree (same effect as git apply on /repo, without disturbing concurrent runs); worktree removed afterwards',
  'check_output':out.splitlines(),'detected':'VIOLATION' in out,
  'detected_with_failing_input':'VIOLATION' in out and 'no-failing-input-found' not in out.split('VIOLATION',1)[1].splitlines()[0]})
-json.dump(m,open(f'/verif/seeded/{id}/meta.json','w'),indent=1)
+json.dump(m,open(f'{dest}/meta.json','w'),indent=1)
 print('detected:',m['detected'],'with input:',m['detected_with_failing_input'])
 PY
 git -C /repo worktree remove --force $w
